@@ -110,6 +110,8 @@ func (fc *flowChecker) judge(t *rapid.T, c *flowCase, res *native.Result) {
 	fc.rec.Count("native_runs_panicked", panics)
 	fc.rec.Count("native_runs_crashed", crashes)
 	fc.rec.Count("excluded_by_known_finding", c.Prog.Excluded)
+	fc.rec.Count("observed_flows_excluded_deep_reachability", deepExcluded)
+	deepExcluded = 0
 	if len(obs) == 0 {
 		fc.rec.Count("cases_without_observed_flow", 1)
 		return
